@@ -4,8 +4,8 @@
    every run.  State machine: Model/Restore.v (hand model of restorer.go, corresponded). *)
 From Coq Require Import List String ZArith NArith Bool.
 Import ListNotations.
-From DV Require Import Model.Tree Model.Tables Model.Restore Model.RestoreChecks Proofs.RestoreProofs
-     Gen.Universe Gen.RestTbl Gen.PointsTbl.
+From DV Require Import Model.Tree Model.Tables Model.Skeleton Model.Restore Model.RestoreChecks Proofs.RestoreProofs
+     Gen.Universe Gen.RestTbl Gen.PointsTbl Gen.DataTbl.
 Local Open Scope string_scope.
 Local Open Scope list_scope.
 
@@ -16,6 +16,14 @@ Local Open Scope list_scope.
    and the only call with end = true), under the point's own name; the only decorations
    rendered from another node are the FuncDecl signature decorations n.Type.Decs.* *)
 Theorem C04_points_exact : rest_points_ok dec_universe universe rest_tbl = true.
+Proof. vm_compute. reflexivity. Qed.
+
+(* Where each point is rendered relative to the node's tokens, strings and children: for
+   every kind the restorer case emits decoration points, position assignments, tokens,
+   strings, child nodes and lists in exactly the order of the kind's part list in
+   gendst/data/data.go -- the description from which the documentation of every point
+   (the "/*Point*/" examples of decorations-types-generated.go) is produced. *)
+Theorem C04_render_order_is_documented_order : rest_matches_data data_tbl rest_tbl universe = true.
 Proof. vm_compute. reflexivity. Qed.
 
 Theorem C04_funcdecl_signature_points : funcdecl_special_covers dec_universe = true.
@@ -77,6 +85,7 @@ Example C04_nonvacuous :
 Proof. vm_compute. split; reflexivity. Qed.
 
 Print Assumptions C04_points_exact.
+Print Assumptions C04_render_order_is_documented_order.
 Print Assumptions C04_funcdecl_signature_points.
 Print Assumptions C04_listing_exact.
 Print Assumptions C04_node_segments.
